@@ -1363,6 +1363,31 @@ def directed(rng, sch, budget):
         x = mk_field(fd[0], args=list(args.items()), sels=leaf_or_sub(sch, fd[2]))
         out.append(("variable-in-input-field", [mk_op([x if T == q else at_type(T, [x])],
                                                       vars_=[("v", vt, default, [])])]))
+    # D2b. the same two levels down: the object is an item of a list literal (`linp: [{f: $v}]`), the single item of
+    # a list (`linp: {f: $v}`), or both positions hold the variable (`li: [$v], linp: [{f: $v}]`)
+    iname0 = list(sch.inputs)[0]
+    group = []
+    for f, ft, fdv in sch.inputs[iname0]:
+        for vt in tvariants(ft):
+            for dv in ("none", "null", "value"):
+                for shape in ("item", "single", "both"):
+                    group.append((f, ft, vt, dv, shape))
+    for f, ft, vt, dv, shape in cap(group, budget * 2):
+        default = None
+        if dv == "null":
+            default = ("null",)
+        elif dv == "value":
+            default = const_value(rng, sch, vt, allow_null=False)
+        base = dict(const_value(rng, sch, NN(N(iname0)))[1])
+        base[f] = ("var", "v")
+        obj = ("obj", list(base.items()))
+        fd = sch.field(q, "scalars")
+        args = dict(const_args(rng, sch, fd[1]))
+        args["linp"] = obj if shape == "single" else ("list", [obj])
+        if shape == "both":
+            args["li"] = ("list", [("var", "v")])
+        out.append(("variable-in-input-field-in-list", [mk_op([mk_field("scalars", args=list(args.items()))],
+                                                              vars_=[("v", vt, default, [])])]))
     # D3. variables inside custom scalar literals
     jn = sch.scalars[0]
     for v, vt in [(("obj", [("a", ("var", "v"))]), N("Int")), (("obj", [("a", ("var", "undefinedVar"))]), None),
@@ -1478,6 +1503,47 @@ def directed(rng, sch, budget):
             if "Fskip" in text:
                 doc.append(mk_frag("Fskip", sub, [mk_field("tick", dirs=[("skip", [("if", ("var", "c"))])])]))
             out.append(("subscription-shape", doc))
+        # what CollectFields never visits for the subscription type: named fragments and inline fragments on another
+        # possible type of an interface / union of the subscription type, holding a second field, an introspection
+        # field or a conditional field; next to the same under a condition that applies
+        abstract = [(I, [O for O in sch.possible(I) if O != sub]) for I in sch.objects[sub]["implements"]]
+        abstract += [(U, [O for O in ms if O != sub]) for U, ms in sch.unions.items() if sub in ms]
+        skip_c = [("skip", [("if", ("var", "c"))])]
+        skip_t = [("skip", [("if", ("bool", True))])]
+        for A, Os in abstract:
+            for O in Os[:2]:
+                f0 = fsel(sch.fields(O)[0], alias="zz")
+                f0s = copy.deepcopy(f0)
+                f0s["dirs"] = skip_t
+                und = lambda inner, dirs=None: {"k": "I", "cond": A, "dirs": dirs or [], "sels": inner}
+                ono = lambda inner, dirs=None: {"k": "I", "cond": O, "dirs": dirs or [], "sels": inner}
+                sp = {"k": "S", "name": "Fna", "dirs": []}
+                variants = [
+                    ([t1, und([sp])], [mk_frag("Fna", O, [f0])]),
+                    ([t1, und([sp, sp]), und([sp])], [mk_frag("Fna", O, [f0])]),
+                    ([t1, und([sp])], [mk_frag("Fna", O, [f0s])]),
+                    ([t1, und([sp])], [mk_frag("Fna", O, [mk_field("__typename", alias="zz")])]),
+                    ([t1, und([sp])], [mk_frag("Fna", O, [{"k": "S", "name": "Fi", "dirs": []}]),
+                                       mk_frag("Fi", A, [mk_field("__typename", alias="yy")])]),
+                    ([t1, und([sp, {"k": "S", "name": "Fi", "dirs": []}])],
+                     [mk_frag("Fna", O, [{"k": "S", "name": "Fi", "dirs": []}]),
+                      mk_frag("Fi", A, [mk_field("__typename", alias="yy")])]),
+                    ([t1, und([ono([f0s])])], []),
+                    ([t1, und([ono([f0], skip_t)])], []),
+                    ([t1, und([{"k": "S", "name": "Fna", "dirs": skip_t}])], [mk_frag("Fna", O, [f0])]),
+                    ([t1, und([ono([mk_field("__typename", alias="zz")])])], []),
+                    ([t1, und([ono([f0]), t2])], []),
+                    ([t1, und([ono([f0]), t1])], []),
+                    ([und([ono([f0]), t1]), und([t1])], []),
+                    ([t1, und([ono([und([t2])])])], []),
+                    ([mk_field("tick", dirs=skip_c), und([ono([f0])])], []),
+                ]
+                for sels, frags in variants:
+                    text = " ".join(sel_str(x) for x in sels) + " ".join(sel_str(x) for f in frags for x in f["sels"])
+                    out.append(("subscription-type-condition",
+                                [mk_op(copy.deepcopy(sels), optype="subscription",
+                                       vars_=[("c", NN(N("Boolean")), None, [])] if "$c" in text else [])]
+                                + copy.deepcopy(frags)))
     # H. fragment graphs: cycles through fields and inline fragments, and acyclic diamonds
     def fr(name, succ, wrap):
         sels = [mk_field("__typename")]
